@@ -203,12 +203,17 @@ BASE_OK = [35]
 
 def cargo_test(w, timeout=100):
     env = dict(os.environ, CARGO_NET_OFFLINE='true', CARGO_TARGET_DIR=os.path.join(w, 'target'), CARGO_INCREMENTAL='1', RUSTFLAGS='-Awarnings')
+    import signal
+    p = subprocess.Popen(['cargo', 'test', '--offline', '--lib', '--tests', '--no-fail-fast', '--', '--test-threads', '2'], cwd=os.path.join(w, 'repo'), env=env,
+                         stdout=subprocess.PIPE, stderr=subprocess.STDOUT, text=True, start_new_session=True)
     try:
-        r = subprocess.run(['cargo', 'test', '--offline', '--lib', '--tests', '--no-fail-fast', '--', '--test-threads', '2'], cwd=os.path.join(w, 'repo'), env=env,
-                           stdout=subprocess.PIPE, stderr=subprocess.STDOUT, timeout=timeout, text=True)
-        out = r.stdout
-    except subprocess.TimeoutExpired as e:
-        subprocess.run("pkill -f '%s/target/debug/deps/meshless' || true" % w, shell=True)
+        out, _ = p.communicate(timeout=timeout)
+    except subprocess.TimeoutExpired:
+        try:
+            os.killpg(p.pid, signal.SIGKILL)
+        except ProcessLookupError:
+            pass
+        p.communicate()
         return 'killed', ['TIMEOUT']
     if re.search(r'^error(\[E\d+\])?:', out, re.M) and 'test result' not in out:
         return 'nocompile', re.findall(r'^error.*', out, re.M)[:1]
